@@ -117,9 +117,10 @@ class _Return(Exception):
 class ARaise(Exception):
     """The interpreted code raises."""
 
-    def __init__(self, what: str) -> None:
+    def __init__(self, what: str, obj=None) -> None:
         super().__init__(what)
         self.what = what
+        self.obj = obj          # the abstract exception object, when there is one (kept through catch / re-raise)
 
 
 class Oracle:
@@ -301,6 +302,19 @@ class Interp:
         env['__self__'] = self_obj
         if isinstance(unit.node, ast.Lambda):
             return self.eval(unit.node.body, env)
+        if _is_generator(unit.node):
+            # a generator function: calling it runs nothing; the body runs when the result is iterated (all of it at the
+            # first consumption - the interleaving with the consumer is not modelled)
+            yields: list = []
+            env['__yields__'] = yields
+
+            def thunk(body=unit.node.body, env=env, yields=yields):
+                try:
+                    self.exec_block(body, env)
+                except _Return:
+                    pass
+                return yields
+            return AOneShot(thunk)
         try:
             self.exec_block(unit.node.body, env)
         except _Return as r:
@@ -326,6 +340,11 @@ class Interp:
             if 'BaseException' in anc:
                 return AObj(ref, {'args': tuple(args)}, tag=f'exc:{ref.name}')
             obj = AObj(ref, {})
+            init = self.p.lookup_method(ref, '__init__')
+            if init is not None:
+                # a hand-written constructor: interpreted
+                self.call_unit(init, list(args), dict(kwargs), obj)
+                return obj
             # dataclass-like: fields from keywords / positionals in declaration order
             names = [n for n, (ann, d) in ref.fields.items() if ann is not None]
             for n, v in zip(names, args):
@@ -626,7 +645,12 @@ class Interp:
             return True
         names = [(dotted(t) or '').split('.')[-1] for t in (h.type.elts if isinstance(h.type, ast.Tuple) else [h.type])]
         for n in names:
-            if n in ('Exception', 'BaseException'):
+            if n == 'BaseException':
+                return True
+            if n == 'Exception':
+                # cancellation and interpreter exits are not Exceptions
+                if any(b in what for b in ('CancelledError', 'KeyboardInterrupt', 'SystemExit', 'GeneratorExit')):
+                    continue
                 return True
             if n and n in what:
                 return True
@@ -642,9 +666,16 @@ class Interp:
             except ARaise as ex:
                 for h in st.handlers:
                     if self._handler_matches(h, ex.what):
+                        if ex.obj is None:
+                            ex.obj = AObj(('ext', 'builtins.Exception'), {'args': (), '__what__': ex.what}, tag=f'caught:{ex.what[:40]}')
                         if h.name:
-                            env[h.name] = AObj(('ext', 'builtins.Exception'), {'args': ()}, tag=f'caught:{ex.what[:40]}')
-                        self.exec_block(h.body, env)
+                            env[h.name] = ex.obj
+                        outer_exc = env.get('__current_exc__')
+                        env['__current_exc__'] = ex
+                        try:
+                            self.exec_block(h.body, env)
+                        finally:
+                            env['__current_exc__'] = outer_exc
                         break
                 else:
                     raise
@@ -713,8 +744,15 @@ class Interp:
         if isinstance(st, ast.Pass):
             return
         if isinstance(st, ast.Raise):
-            exc = self.eval(st.exc, env) if st.exc is not None else None
-            raise ARaise(repr(exc))
+            if st.exc is None:
+                cur_exc = env.get('__current_exc__')
+                if cur_exc is not None:
+                    raise ARaise(cur_exc.what, cur_exc.obj)
+                raise ARaise('RuntimeError (bare raise outside a handler)')
+            exc = self.eval(st.exc, env)
+            if isinstance(exc, AObj) and isinstance(exc.attrs.get('__what__'), str):
+                raise ARaise(exc.attrs['__what__'], exc)
+            raise ARaise(repr(exc), exc if isinstance(exc, AObj) else None)
         if isinstance(st, ast.With):
             # contextlib.suppress(...): exceptions of the listed classes end the block silently
             names = []
@@ -966,6 +1004,16 @@ class Interp:
                 else:
                     kwargs[k.arg] = self.eval(k.value, env)
             return self.call(f, args, kwargs, e)
+        if isinstance(e, ast.Yield):
+            if '__yields__' not in env:
+                raise AnalysisError('abstract interpretation: yield outside a generator function')
+            env['__yields__'].append(self.eval(e.value, env) if e.value is not None else None)
+            return None
+        if isinstance(e, ast.YieldFrom):
+            if '__yields__' not in env:
+                raise AnalysisError('abstract interpretation: yield outside a generator function')
+            env['__yields__'].extend(self._to_list(self.eval(e.value, env)))
+            return None
         if isinstance(e, ast.BoolOp):
             # an unknown operand is decided once: the chosen outcome replaces it (no second, inconsistent choice)
             if isinstance(e.op, ast.And):
@@ -1122,6 +1170,18 @@ class Interp:
 
 _STR_METHODS = {'split', 'rsplit', 'join', 'replace', 'startswith', 'endswith', 'lower', 'upper', 'strip', 'lstrip', 'rstrip',
                 'partition', 'rpartition', 'removeprefix', 'removesuffix', 'title', 'capitalize'}
+
+
+def _is_generator(fn: ast.AST) -> bool:
+    todo = list(getattr(fn, 'body', []))
+    while todo:
+        n = todo.pop()
+        if isinstance(n, (ast.Yield, ast.YieldFrom)):
+            return True
+        if isinstance(n, (ast.FunctionDef, ast.AsyncFunctionDef, ast.Lambda, ast.ClassDef)):
+            continue
+        todo.extend(ast.iter_child_nodes(n))
+    return False
 
 
 class _Continue(Exception):
